@@ -669,7 +669,7 @@ func main() {
 	r := hx.NewRand(o.Seed)
 	nGen, nAwk, nAnn := 45, 15, 1000
 	if o.Tier == "thorough" {
-		nGen, nAwk, nAnn = 6000, 1500, 60000
+		nGen, nAwk, nAnn = 2500, 600, 40000
 	}
 	if o.N > 0 {
 		nGen, nAwk, nAnn = o.N, o.N/4, o.N*10
